@@ -210,8 +210,32 @@ def lay_pickle(content, rng, style):
     return ext.chunked_array
 
 
+def lay_rebuilt_slice(content, rng, style):
+    """a struct with offset 0 whose children are still slices of larger buffers
+    (what view_fields / pop_fields / set_list_field build from a sliced chunk)"""
+    ca = lay_slice(content, rng, style)
+    ch = ca.chunk(0)
+    if len(ch) == 0:
+        return ca
+    kids = [ch.field(i) for i in range(ch.type.num_fields)]
+    out = pa.StructArray.from_arrays(kids, names=[f.name for f in ch.type], mask=ch.is_null())
+    return pa.chunked_array([out], type=ca.type)
+
+
+def lay_lib_slice_view(content, rng, style):
+    """the same through the library: series.iloc[k:] then .nest[[all fields]]"""
+    ty, rows = content["ty"], content["rows"]
+    pl = rng.randint(1, 3)
+    big = {"ty": ty, "rows": junk_rows(rng, ty, pl) + rows}
+    ser = pd.Series(NestedExtensionArray(pa.chunked_array([build_struct(big, style, rng)], type=struct_type(ty))))
+    out = ser.iloc[pl:].nest[[n for n, _ in ty]]
+    return out.array.chunked_array
+
+
 LAYOUTS = {
     "fresh": lay_fresh,
+    "rebuilt_slice": lay_rebuilt_slice,
+    "lib_slice_view": lay_lib_slice_view,
     "slice": lay_slice,
     "chunks_sliced": lay_chunks_sliced,
     "chunks_fresh": lay_chunks_fresh,
